@@ -11,9 +11,12 @@ LEVEL_TEXT = ("Proof: Coq theorems for all glyph sets and non-singular transform
               "and the transformations filter's inverse compensation M.T.M^-1 on an already transformed base equals M.T on the "
               "original base and keeps the component's orientation. Tied to /repo by evaluating the Coq renderer `resolve` on the glyph "
               "set before and after each real filter (Decompose, DecomposeTransformed, Flatten, Transformations; include subsets; "
-              "both UFO libraries) and the Coq flatten model against FlattenComponentsFilter. Anchor propagation is checked on the "
-              "implementation against an independent statement (position = component transform of the base's anchor, no override, "
-              "idempotent) -- observed, not modelled. The matrix TransformationsFilter builds from its options is modelled step by "
+              "both UFO libraries) and the Coq flatten model against FlattenComponentsFilter. Anchor propagation is transcribed "
+              "(Geometry/Propagate.v, including the promotion of one mark to base in a mark made only of marks, the promoted component "
+              "being an input computed by the check with fontTools' BoundsPen) and proved, for every glyph set and every promotion, never "
+              "to override, to add only component images and to add nothing on a second run; every propagate run -- plain, mark-of-marks "
+              "scenarios, the interpolatable form per master on families with a sparse master -- is compared with it and with an "
+              "independent per-role statement. The matrix TransformationsFilter builds from its options is modelled step by "
               "step (Geometry/TransformMatrix.v) and proved equal, for all option values, to the closed form 'slant about the origin "
               "height, then scale about it, then offset' (C15_requested_matrix_closed_form / _on_a_point); the check's requested "
               "matrix is compared with that model exactly and with the filter's own matrix (exactly; within 1e-9 with slant), and "
